@@ -110,10 +110,10 @@ def c08_r1(ctx):
     ctx.saw(rd)
     RA = pm.Alpha(rd)
     sts = pm.stmts_of(rd.node)
-    first = RA.find(sts, "lens_code = chr(dbfile.get_byte(lastbyte))")
+    first = RA.find(sts, "lens_code = chr(self._dbfile.get_byte(lastbyte))", al=True)
     xs = [st for st in sts if isinstance(st, ast.If) and RA.eq(st.test, "lens_code == 'X'")]
-    ok = first is not None and len(xs) == 1 and RA.has(xs[0].body, "lens_code = chr(dbfile.get_byte(lastbyte - 2))") and \
-        RA.has(xs[0].body, "offsets_code = chr(dbfile.get_byte(lastbyte - 1))")
+    ok = first is not None and len(xs) == 1 and RA.has(xs[0].body, "lens_code = chr(self._dbfile.get_byte(lastbyte - 2))", al=True) and \
+        RA.has(xs[0].body, "offsets_code = chr(self._dbfile.get_byte(lastbyte - 1))", al=True)
     ncodes = sum(1 for st in sts if isinstance(st, ast.Assign) and any(norm.call_name(c) == "get_byte" for c in norm.calls_in(st.value)))
     ctx.ob(rd, ok and ncodes == 3,
            "reader finds 'X' at the end, the offsets code before it and the lengths code before that",
